@@ -1,5 +1,7 @@
 import PagexmlModel.Drv.Util
 import PagexmlModel.Drv.C03
+import PagexmlModel.Drv.C06
+import PagexmlModel.Drv.C07
 import PagexmlModel.Drv.C10
 import PagexmlModel.Drv.C11
 import PagexmlModel.Drv.C20
@@ -18,6 +20,8 @@ namespace Pagexml.Drv
 def dispatch (p op : String) (args : Json) : Dec Json :=
   match p with
   | "C03" => C03.handle op args
+  | "C06" => C06.handle op args
+  | "C07" => C07.handle op args
   | "C10" => C10.handle op args
   | "C11" => C11.handle op args
   | "C12" => C12.handle op args
